@@ -17,6 +17,14 @@ Theorem C10_longest : forall keys inp pos parts cps endpos,
 Proof. exact lex_name_longest. Qed.
 Print Assumptions C10_longest.
 
+Theorem C10_operator_when_unbound : forall keys inp pos parts cps endpos,
+  collect inp pos = (parts, cps, endpos) ->
+  (match parts with p :: _ => str_eqb p str_item | [] => false end) = false ->
+  1 <= length parts -> bound keys parts 1 -> (forall j, 1 < j <= length parts -> ~ bound keys parts j) ->
+  lex_name keys false inp pos = LName (name_new (firstn 1 parts)) (S (nth 0 cps 0)).
+Proof. exact operator_when_unbound. Qed.
+Print Assumptions C10_operator_when_unbound.
+
 Theorem C10_normal_form_refuted :
   flatten_parts parts_a_plus_minus_b <> name_new parts_a_plus_minus_b /\ flatten_parts parts_a_plus <> name_new parts_a_plus.
 Proof. exact normal_form_refuted_witness. Qed.
